@@ -155,7 +155,10 @@ class Polyline2D(Base2DIn2D):
         for i, _v in enumerate(self.vertices[1:-1]):
             _a = self[i - skip].determinant(_v) + _v.determinant(self[i + 2]) + \
                 self[i + 2].determinant(self[i - skip])
-            if abs(_a) >= tolerance:
+            b_dist = self[i + 2].distance_to_point(self[i - skip])
+            b_dist = tolerance if b_dist < tolerance else b_dist
+            tri_tol = (b_dist * tolerance) / 2  # area of triangle with tolerance height
+            if abs(_a) >= tri_tol:  # triangle area > tolerance; not colinear
                 new_vertices.append(_v)
                 skip = 0
             else:
